@@ -27,6 +27,15 @@ open DocGen
 theorem msgpack_documents_are_source : Gen.doc_rows.all (fun r => nats (MD.ser (docOf r.1)) == r.2.2.2) = true := by decide +kernel
 end C08
 
+namespace C09
+open DocGen
+/-- **MessagePack read back**: for the bytes of every document of the table the deserializer model answers the library's code and leaves the library's document -/
+theorem msgpack_read_back_is_source :
+    Gen.mpback_rows.all (fun r =>
+      let res := MD.run {} 20 .all (bytes r.1)
+      (if res.1 == .ok then 0 else 3) == r.2.1 && nats (JSer.compact {} res.2.1) == r.2.2) = true := by decide +kernel
+end C09
+
 namespace C11
 open DocGen
 /-- **filter table**: for every (filter, input) pair the filtered deserializer model answers the library's code and leaves the library's document -/
